@@ -133,8 +133,32 @@ def run_case(case, ctx):
         ctx.violation("C09:%s:%s:%s" % (g, clause, sub), what, wit)
 
     if g == "large":
-        which = gen.choice(rs, ["tt-matrix-120x800", "tucker-600x12x12", "tt-3-modes"])
+        which = gen.choice(rs, ["tt-matrix-120x800", "tucker-600x12x12", "tt-3-modes", "tt-very-wide-first-unfolding", "tt-very-wide-first-unfolding"])
         ctx.count("large/" + which)
+        if which == "tt-very-wide-first-unfolding":
+            # a short first mode against thousands of columns (a few channels x an image, a register of qubits), real or complex,
+            # at ranks that discard nothing: exact
+            a_ = int(rs.randint(2, 5))
+            shp_ = [a_, int(rs.randint(64, 80)), int(rs.randint(64, 80))] if rs.rand() < 0.7 else [2] * 13
+            X = rs.standard_normal(shp_)
+            if rs.rand() < 0.6:
+                X = X + 1j * rs.standard_normal(shp_)
+                which += "+complex"
+            rk_ = [1] + [10 ** 6] * (len(shp_) - 1) + [1]
+            out = D.tensor_train(X, rk_)
+            acc_ = np.asarray(out.factors[0])
+            for c_ in out.factors[1:]:          # plain sequential contraction (an un-optimised einsum over 13 cores is exponential)
+                acc_ = np.tensordot(acc_, np.asarray(c_), axes=([-1], [0]))
+            rec = acc_.reshape(X.shape)
+            r, bound = 0, 0.0
+            ctx.count("large/" + which)
+            err = float(np.sum(np.abs(X - rec) ** 2))
+            desc = {"gen": g, "which": which, "shape": shp_}
+            ctx.nontriv(desc)
+            ctx.count("clause/exact")
+            if err > 1e-18 * float(np.sum(np.abs(X) ** 2)):
+                viol("exact", "large", "%s %s at full ranks: ||X-X^||^2/||X||^2 = %.3g" % (which, shp_, err / float(np.sum(np.abs(X) ** 2))), desc)
+            return
         if which == "tt-matrix-120x800":
             X = rs.standard_normal((120, 800)) * np.geomspace(1, 1e-2, 800)
             r = int(rs.randint(3, 12))
